@@ -1,13 +1,28 @@
 (* C06 - Slice header parsing follows H.264 7.3.3 and stops exactly at slice data.
-   Status: proved here - totality and the accepted-input half (activated sets are the context entries
-   named by the ids; every field within its range); the forward round trip against a spec encoder of
-   7.3.3 and the reader position are carried by the correspondence check in this revision (the harness
-   reads the 16 bits after the header and compares them with the generated slice data). *)
-From H264 Require Import Base.Prelude Model.BitReader Model.Parser Model.Nal Model.Sps Model.Context Model.Pps Model.Slice
-     Proofs.Wp Proofs.SpsInv Proofs.PpsInv Proofs.SliceInv.
+   enc_slice_header (Spec/SyntaxSlice.v) is the syntax table of 7.3.3 / 7.3.3.1-3 written as an encoder
+   relative to the NAL header and the activated PPS / SPS; wf_slice states, element by element, the
+   standard's presence condition (on slice type, NAL type, nal_ref_idc and the SPS/PPS flags) and the
+   representable ranges.  Proved: the forward round trip with the reader left on the first bit of slice
+   data, for every context of accepted parameter sets; totality; the accepted-input half. *)
+From H264 Require Import Base.Prelude Base.Bits Model.BitReader Model.Parser Model.Nal Model.Sps Model.Context Model.Pps Model.Slice
+     Spec.SyntaxSps Spec.SyntaxSlice Proofs.Wp Proofs.SpsInv Proofs.PpsInv Proofs.SliceInv Proofs.C14_proofs Proofs.SliceRoundtrip.
 Local Open Scope N_scope.
 
-Theorem C06_accepted_partial : forall c hdr s, ctx_ok c ->
+(* Every conforming slice header (B slices with an explicit weight table excepted: wf_slice demands
+   family <> B where the table is present), followed by slice data `rest` on any kind of source, parses to
+   exactly the encoded structure and the ids of the activated sets, and the reader is left on `rest`.
+   Slice data must exist (a 1 bit after its first bit - the rbsp stop bit at the latest): the library
+   refuses a header with nothing after it. *)
+Theorem C06_roundtrip : forall c hdr pp sp h ab rest tl,
+  ctx_ok c -> wf_slice c hdr pp sp h ab -> any_one (List.tl rest) = true ->
+  slice_header_read c hdr (mk_src (enc_slice_header hdr pp sp h ab ++ rest) tl)
+  = OK ((h, pps_seq_parameter_set_id pp, pic_parameter_set_id pp), mk_src rest tl).
+Proof. exact slice_header_roundtrip. Qed.
+Print Assumptions C06_roundtrip.
+
+(* totality and the accepted-input half: for every input, never an abort; an accepted header names
+   context entries, is within its ranges, and was consumed front to back *)
+Theorem C06_accepted : forall c hdr s, ctx_ok c ->
   match slice_header_read c hdr s with
   | OK ((h, sid, pid), s') => inv_slice c h sid pid /\ consumes s s'
   | ERR _ => True
@@ -19,12 +34,37 @@ Proof.
                 (fun r s' H Hcs => conj H Hcs)) as H.
   destruct (slice_header_read c hdr s) as [[[[h sid] pid] s']| | |]; exact H.
 Qed.
-Print Assumptions C06_accepted_partial.
+Print Assumptions C06_accepted.
 
-(* non-vacuity: contexts satisfying ctx_ok exist and are what accepted insertions produce *)
+(* non-vacuity: contexts satisfying ctx_ok exist *)
 Example C06_ex_ctx : ctx_ok ctx_empty.
 Proof.
   split.
   - intros id sp H. unfold sps_by_id, ctx_empty in H. cbn in H. unfold Context.map_get in H. destruct (N.to_nat id); discriminate.
   - intros id p H. unfold pps_by_id, ctx_empty in H. cbn in H. unfold Context.map_get in H. destruct (N.to_nat id); discriminate.
+Qed.
+
+(* non-vacuity of wf_slice and of the round trip: an SP slice (type 8) in a non-IDR reference NAL, field
+   coding with a bottom field, POC type 0, redundant count, reference-count override, list modifications,
+   an explicit weight table with one chroma pair, adaptive marking, CABAC init, QS delta, deblocking
+   offsets; the 6 bits of slice data follow *)
+Example C06_ex :
+  let sp := mk_sps 100 0 40 0 (mk_chroma_info YUV420 false 0 0 false None) 3 (PocTypeZero 2) 4 false 19 8 (Fields false) true None None in
+  let pp := mk_pps 4 0 true true None 0 0 true 0 0%Z (-3)%Z 0%Z true false true None in
+  let c := put_pic_param_set (put_seq_param_set ctx_empty sp) pp in
+  let t := mk_pwt 5 (Some 4) [Some (mk_pw 3 (-1)); None] [[mk_pw 1 1; mk_pw (-2) 0]; []] in
+  let h := mk_sh 17 (mk_st FamSP true) None 77 FpBottom None (Some (PlFrame 33)) (Some 1) None (Some (NraP 1))
+                 (RplP [ModSubtract 2; ModLongTermRef 0]) (Some t)
+                 (Some (DrAdaptive [MmShortTermUnused 1; MmAllUnused; MmShortTermUsedForLongTerm 2 3])) (Some 2) (-4)%Z (Some true) (Some 30) 2 in
+  let hdr := 65 in
+  let rest := [true; false; true; true; false; false] in
+  wf_slice c hdr pp sp h (3, -2)%Z /\
+  slice_header_read c hdr (mk_src (enc_slice_header hdr pp sp h (3, -2)%Z ++ rest) TEof) = OK ((h, 0, 4), mk_src rest TEof).
+Proof.
+  cbv zeta. split; [|vm_compute; reflexivity].
+  unfold wf_slice. cbv zeta.
+  repeat match goal with |- _ /\ _ => apply conj end; try (vm_compute; (reflexivity || discriminate || (intros; discriminate))).
+  all: try (cbn; unfold u32v, s32v; lia).
+  all: try (eexists; split; [reflexivity|]).
+  all: try (vm_compute; (reflexivity || discriminate)).
 Qed.
